@@ -409,6 +409,14 @@ class List(list, base.Symbolic, pg_typing.CustomTyping):
       should_insert = True
       value = value.value
 
+    # Use the actual position for a negative index, so the path of the new
+    # child and of the update do not depend on a later re-indexing.
+    if index < 0:
+      if index >= -len(self):
+        index += len(self)
+      elif should_insert:
+        index = 0
+
     old_value = pg_typing.MISSING_VALUE
     # Replace an existing value.
     if index < len(self) and not should_insert:
@@ -421,6 +429,7 @@ class List(list, base.Symbolic, pg_typing.CustomTyping):
     if index < len(self):
       if should_insert:
         list.insert(self, index, new_value)
+        self._update_children_indices()
       else:
         list.__setitem__(self, index, new_value)
         # Detach old value from object tree.
@@ -432,6 +441,12 @@ class List(list, base.Symbolic, pg_typing.CustomTyping):
         self.sym_path + index, self,
         self._value_spec.element if self._value_spec else None,
         old_value, new_value)
+
+  def _update_children_indices(self) -> None:
+    """Updates the paths of children whose position in the list has changed."""
+    for idx, item in self.sym_items():
+      if isinstance(item, base.TopologyAware) and item.sym_path.key != idx:
+        item.sym_setpath(utils.KeyPath(idx, self.sym_path))
 
   def _formalized_value(self, idx: int, value: Any):
     """Get transformed (formal) value from user input."""
@@ -469,9 +484,7 @@ class List(list, base.Symbolic, pg_typing.CustomTyping):
         list.__delitem__(self, i)
 
     # Update paths for children.
-    for idx, item in self.sym_items():
-      if isinstance(item, base.TopologyAware) and item.sym_path.key != idx:
-        item.sym_setpath(utils.KeyPath(idx, self.sym_path))
+    self._update_children_indices()
 
     if self._onchange_callback is not None:
       self._onchange_callback(field_updates)
@@ -595,8 +608,11 @@ class List(list, base.Symbolic, pg_typing.CustomTyping):
           f'list index out of range. '
           f'Length={len(self)}, index={index}')
 
+    if index < 0:
+      index += len(self)
     old_value = self.sym_getattr(index)
     super().__delitem__(index)
+    self._update_children_indices()
 
     if flags.is_change_notification_enabled():
       self._notify_field_updates([
@@ -742,12 +758,14 @@ class List(list, base.Symbolic, pg_typing.CustomTyping):
     if base.treats_as_sealed(self):
       raise base.WritePermissionError('Cannot sort a sealed List.')
     super().sort(key=key, reverse=reverse)
+    self._update_children_indices()
 
   def reverse(self) -> None:
     """Reverse the elements of the list in place."""
     if base.treats_as_sealed(self):
       raise base.WritePermissionError('Cannot reverse a sealed List.')
     super().reverse()
+    self._update_children_indices()
 
   def custom_apply(
       self,
